@@ -15,7 +15,7 @@
  *   comp op gside ca  <img dst> <img src> <img mask>  sx sy mx my dx dy w h  clip     (14 % of the lines: exact-hit requests, gen_exact; 8 %: destination-edge requests, gen_dstedge)
  *   trap kind gside <img dst> xoff yoff n  v...       kind 0 rasterize_trapezoid (10 ints each),
  *        1 add_traps (6 ints each), 2 composite_trapezoids(op,maskfmt) 3 add_trapezoids 4 composite_triangles (6 ints each)
- *   fill kind gside <img dst> op n  x y w h ...       kind 0 fill_boxes (x1 y1 x2 y2), 1 fill_rectangles (x y w h)
+ *   fill kind gside <img dst> op n  x y w h ...       kind 0 fill_boxes (x1 y1 x2 y2), 1 fill_rectangles (x y w h); +2 / +4: destination clip reaching beyond its bounds
  *   glyph op gside maskfmt <img dst> <img src> sx sy dx dy n  fmt w h ox oy x y ...
  *   img = N | S argb | L rep T | B fmt w h spad neg slack acc rep filt cw ch xb yb pseed T
  *   T   = - | + m00 .. m22
@@ -435,6 +435,21 @@ static void run_line (char *line)
 	pop = nexti (); col = (uint32_t) nexti (); n = nexti ();
 	c.alpha = (col >> 24) * 257; c.red = ((col >> 16) & 255) * 257; c.green = ((col >> 8) & 255) * 257; c.blue = (col & 255) * 257;
 	if (skip || !dst || n < 0 || n > 64) { fprintf (f_impl, "SKIP\n"); stat ("SKIP"); goto out; }
+	if (kind >> 1)
+	{
+	    /* kind 2,3: the destination carries a clip region reaching beyond its bounds on every side; 4,5: a two-box clip partly outside */
+	    pixman_region32_t r; pixman_box32_t b[2]; int cl = (int) (col % 4999) + 1;
+	    if ((kind >> 1) == 1) { b[0].x1 = -8; b[0].y1 = -8; b[0].x2 = desc[0].w + 8; b[0].y2 = desc[0].h + 8; pixman_region32_init_rects (&r, b, 1); }
+	    else
+	    {
+		b[0].x1 = cl % 7 - 4; b[0].y1 = cl % 5 - 3; b[0].x2 = b[0].x1 + 3 + cl % 11; b[0].y2 = b[0].y1 + 2 + cl % 13;
+		b[1].x1 = b[0].x2 + 1; b[1].y1 = b[0].y2; b[1].x2 = b[1].x1 + 1 + desc[0].w; b[1].y2 = b[1].y1 + 1 + desc[0].h;
+		pixman_region32_init_rects (&r, b, 2);
+	    }
+	    pixman_image_set_clip_region32 (dst, &r);
+	    pixman_region32_fini (&r);
+	    kind &= 1;
+	}
 	if (kind == 0)
 	{
 	    pixman_box32_t b[64];
@@ -793,7 +808,7 @@ static void gen_line (char *out)
     }
     else if (k < 93)
     {
-	int kind = rng_n (2), n = rng_range (1, 4), i;
+	int kind = rng_n (2) + (rng_chance (35) ? 2 * rng_range (1, 2) : 0), n = rng_range (1, 4), i;
 	static const int fops[] = { 1, 0, 3, 3, 12, 2 };
 	emit ("fill %d %d", kind, gside);
 	g_bits (0, &dw, &dh, 1, 0, 0, 0, 0);
@@ -803,7 +818,7 @@ static void gen_line (char *out)
 	    int x = rng_range (-3, dw + 1), y = rng_range (-3, dh + 1), w = rng_range (0, dw + 4), h = rng_range (0, dh + 4);
 	    if (rng_chance (10)) { x = rng_chance (50) ? -32768 : 32767 - rng_n (3); }
 	    if (rng_chance (10)) { h = 65535 - rng_n (3); }
-	    if (kind == 0) { if (rng_chance (8)) { x = -2147483647 - 1 + rng_n (3); w = 100; } emit (" %d %d %d %d", x, y, rng_chance (5) ? 2147483647 : x + w, rng_chance (5) ? 2147483647 : y + h); }
+	    if ((kind & 1) == 0) { if (rng_chance (8)) { x = -2147483647 - 1 + rng_n (3); w = 100; } emit (" %d %d %d %d", x, y, rng_chance (5) ? 2147483647 : x + w, rng_chance (5) ? 2147483647 : y + h); }
 	    else emit (" %d %d %d %d", x < -32768 ? -32768 : x, y, w, h);
 	}
     }
